@@ -376,7 +376,7 @@ func c11Run(sc c11Scenario, tmp string) (res c11Result) {
 
 func isLSOp(name string) bool {
 	switch name {
-	case "S", "RS", "RSL", "SW", "SD", "LC", "SNAP", "FSNAP", "CMP", "RETL0", "RET9", "CL", "START", "RSET":
+	case "S", "RS", "RSL", "SW", "SD", "LC", "SNAP", "FSNAP", "CMP", "RETL0", "RET9", "RETL0A", "RET9A", "CL", "START", "RSET":
 		return true
 	}
 	return false
